@@ -217,3 +217,32 @@ package index
 //@   loop 1:
 //@     decreases len(data)
 //@   ensures true
+
+// ---------------------------------------------------------------------------
+// C17: setting / clearing a repository tombstone
+// ---------------------------------------------------------------------------
+
+// Reading the sidecar: assumed to return non-nil entries on success (JSON
+// decoding is outside the contracts).
+//@ func index.ReadMetadataPath
+//@   trusted
+//@   ensures result2 == nil ==> (forall k int :: 0 <= k && k < len(result0) ==> result0[k] != nil)
+//@   assigns nothing
+
+// Writes a temporary file next to the shard; no modelled memory is written.
+//@ func index.JsonMarshalRepoMetaTemp
+//@   trusted
+//@   assigns nothing
+
+// Exactly the repositories with the given ID get the requested tombstone
+// value, every other one keeps its own (isolation, idempotence); and success
+// is reported only if the rename that publishes the sidecar succeeded.
+//@ func index.setTombstone
+//@   requires !effectFailed
+//@   requires mockRepos == nil || (forall k int :: 0 <= k && k < len(mockRepos) ==> mockRepos[k] != nil)
+//@   loop 1:
+//@     invariant -1 <= $i && $i < len(repos) && !effectFailed
+//@     invariant forall k int :: 0 <= k && k < len(repos) ==> repos[k] != nil
+//@     invariant forall k int :: 0 <= k && k <= $i && repos[k].ID == repoID ==> repos[k].Tombstone == tombstone
+//@     decreases len(repos) - $i
+//@   ensures result == nil ==> !effectFailed
